@@ -72,6 +72,25 @@ def normalise(tree):
                     cnt[x] = cnt.get(x, 0) + 10
         return cnt
 
+    def pairs(fn):
+        """{name: number of `name = E; return name` adjacent pairs in fn}"""
+        out = {}
+        for n in ast.walk(fn):
+            for f in ("body", "orelse", "finalbody"):
+                seq = getattr(n, f, None)
+                if isinstance(seq, list):
+                    for a, b in zip(seq, seq[1:]):
+                        if (
+                            isinstance(a, ast.Assign)
+                            and len(a.targets) == 1
+                            and isinstance(a.targets[0], ast.Name)
+                            and isinstance(b, ast.Return)
+                            and isinstance(b.value, ast.Name)
+                            and b.value.id == a.targets[0].id
+                        ):
+                            out[a.targets[0].id] = out.get(a.targets[0].id, 0) + 1
+        return out
+
     def fold(body, cnt):
         out = []
         i = 0
@@ -85,7 +104,7 @@ def normalise(tree):
                 and isinstance(nxt, ast.Return)
                 and isinstance(nxt.value, ast.Name)
                 and nxt.value.id == st.targets[0].id
-                and cnt.get(st.targets[0].id, 0) == 2
+                and cnt.get(st.targets[0].id, 0) == 2 * cnt.get(("pairs", st.targets[0].id), 0)
             ):
                 out.append(ast.copy_location(ast.Return(value=st.value), st))
                 i += 2
@@ -97,6 +116,8 @@ def normalise(tree):
     def visit(node, cnt):
         if isinstance(node, (ast.FunctionDef, ast.AsyncFunctionDef)):
             cnt = occurrences(node)
+            for k, v in pairs(node).items():
+                cnt[("pairs", k)] = v
         for f in ("body", "orelse", "finalbody"):
             seq = getattr(node, f, None)
             if isinstance(seq, list) and seq and isinstance(seq[0], ast.stmt) and cnt is not None:
